@@ -60,6 +60,28 @@ func (e *Engine) syncMapDecl(fr *Frame, recv ssa.Value) (kt, vt types.Type, ok b
 		}
 	}
 	if fa == nil {
+		// a local alias of the field:  mv := x.memberToView; mv.Range(...)  (NaiveForm: a cell with exactly one store)
+		if u, isLoad := recv.(*ssa.UnOp); isLoad && u.Op == token.MUL {
+			if al, isAlloc := u.X.(*ssa.Alloc); isAlloc && al.Parent() != nil {
+				var stores []*ssa.Store
+				for _, b := range al.Parent().Blocks {
+					for _, in := range b.Instrs {
+						if st, isStore := in.(*ssa.Store); isStore && st.Addr == al {
+							stores = append(stores, st)
+						}
+					}
+				}
+				if len(stores) == 1 {
+					if ld, isLd := stores[0].Val.(*ssa.UnOp); isLd && ld.Op == token.MUL {
+						if f, isFA := ld.X.(*ssa.FieldAddr); isFA {
+							fa = f
+						}
+					}
+				}
+			}
+		}
+	}
+	if fa == nil {
 		return nil, nil, false
 	}
 	stt := deref(fa.X.Type())
